@@ -290,8 +290,14 @@ def two_live_calibrators(chk: Check, rng):
                 a, b = twin.build(cfg_a, folder), twin.build(cfg_b, folder)
                 order = [a, b, a, b, a] if it % 2 == 0 else [a, b, b, a, a]
                 for k, cal in enumerate(order):
-                    cal.calibrate(1)
                     who = "A" if cal is a else "B"
+                    if k >= 2 and (it + k) % 3 == 0 and order[k - 1] is not cal:
+                        # this turn is an explicit checkpoint of the state the object already has (it ran no batch since its own last write there, but the
+                        # other run has written the folder in the meantime)
+                        cal.create_checkpoint(folder)
+                        who = who + "k"
+                    else:
+                        cal.calibrate(1)
                     turns.append(who)
                     got = Calibrator.restore_from_checkpoint(folder, model=twin.toy_model)
                     dd = diff(deep(cal), deep(got))
